@@ -463,3 +463,128 @@ func init() {
 	vfRapid("C08/histories", rule, 400, 10000, 16, c08GenHistory, c08CheckHistory)
 	vfRapid("C07/power-levels", "same generator as C08/pairs, judged against R-auth (accept AND reject direction); non-trivial = decided by a type-specific rule", 5000, 200000, 16, c08GenCase, c07Check)
 }
+
+// ---------------------------------------------------------------------------------------------
+// Bounded-exhaustive product over edits of one level map (users / events / notifications) and of
+// the named levels: for a sender at level L, an existing entry at {L-1, L, L+1} is kept / removed /
+// set to {L-1, L, L+1}, while another entry is optionally added (at L-1 / L / L+1) and a third one
+// optionally removed — so that additions and removals in ONE event (map size unchanged) are covered.
+
+func c08EnumEdits(size, shard, nshards int, emit func(c07Case)) {
+	idx := 0
+	type entryOp struct {
+		name string
+		old  int64 // offset from L; 99 = absent
+		new  int64 // offset from L; 99 = absent
+	}
+	var ops []entryOp
+	for _, o := range []int64{99, -1, 0, 1} {
+		for _, n := range []int64{99, -1, 0, 1} {
+			if o == 99 && n == 99 {
+				continue
+			}
+			ops = append(ops, entryOp{fmt.Sprintf("%d->%d", o, n), o, n})
+		}
+	}
+	for _, version := range vfVersions {
+		for _, L := range []int64{50, 100} {
+			for _, which := range []string{"users", "events", "notifications", "named"} {
+				for _, op := range ops {
+					for _, added := range []int64{99, -1, 0, 1} {
+						for _, removed := range []int64{99, -1, 0} {
+							for _, self := range []string{"keep", "remove", "lower", "raise"} {
+								if which != "users" && self != "keep" {
+									continue
+								}
+								idx++
+								if idx%nshards != shard || !c07Pick(idx, size) {
+									continue
+								}
+								emit(c08EditCase(version, L, which, op.old, op.new, added, removed, self))
+							}
+						}
+					}
+				}
+			}
+		}
+	}
+}
+
+func c08EditCase(version string, L int64, which string, oldOff, newOff, added, removed int64, self string) c07Case {
+	sender := c07Alice
+	users := map[string]int64{c07Alice: L}
+	if !vtraits[version].Creators {
+		users[c07Creator] = 100
+	}
+	r := c07Room{Version: version, HasPL: true, JoinRule: "public", Members: map[string]string{c07Creator: "join", c07Alice: "join", c07Bob: "join", c07Carol: "join"}}
+	oldC := c07PLContent(users, map[string]int64{"state_default": 50}, nil, nil)
+	newC := oldC
+	set := func(c jv, mapKey, k string, off int64) jv {
+		if off == 99 {
+			return c
+		}
+		m, ok := c.get(mapKey)
+		if !ok || m.K != 'o' {
+			m = jv{K: 'o'}
+		}
+		return c.with(mapKey, m.with(k, jnum(L+off)))
+	}
+	var k1, k2, k3 string
+	switch which {
+	case "users":
+		k1, k2, k3 = c07Bob, c07Carol, "@dave:b.example"
+	case "events":
+		k1, k2, k3 = "m.room.topic", "m.room.name", "org.example.custom"
+	case "notifications":
+		k1, k2, k3 = "room", "other", "third"
+	}
+	if which == "named" {
+		if oldOff != 99 {
+			oldC = oldC.with("ban", jnum(L+oldOff))
+		}
+		newC = oldC.without("ban")
+		if newOff != 99 {
+			newC = newC.with("ban", jnum(L+newOff))
+		}
+		if added != 99 {
+			newC = newC.with("users_default", jnum(L+added))
+		}
+		if removed != 99 {
+			oldC = oldC.with("invite", jnum(L+removed))
+			newC = newC.without("invite")
+		}
+	} else {
+		oldC = set(oldC, which, k1, oldOff)
+		oldC = set(oldC, which, k3, removed)
+		newC = oldC
+		if m, ok := newC.get(which); ok {
+			newC = newC.with(which, m.without(k1, k3))
+		}
+		newC = set(newC, which, k1, newOff)
+		newC = set(newC, which, k2, added)
+	}
+	if which == "users" {
+		um, _ := newC.get("users")
+		switch self {
+		case "remove":
+			newC = newC.with("users", um.without(c07Alice))
+		case "lower":
+			newC = newC.with("users", um.with(c07Alice, jnum(L-1)))
+		case "raise":
+			newC = newC.with("users", um.with(c07Alice, jnum(L+1)))
+		}
+	}
+	r.PL = oldC
+	b := c07Build(r)
+	prev := "$p:a.example"
+	if vtraits[version].Format == 2 {
+		prev = "$" + strings.Repeat("P", 43)
+	}
+	return c07Finish(version, b, raEv{Type: "m.room.power_levels", Sender: sender, StateKey: raSK(""), Content: newC, Prev: []string{prev}})
+}
+
+func init() {
+	rule := "bounded-exhaustive product: 16 versions x sender level {50,100} x {users, events, notifications, named levels} x (existing entry at L-1/L/L+1/absent -> absent/L-1/L/L+1) x another entry added (none/L-1/L/L+1) x a third entry removed (none/L-1/L) x own entry kept/removed/lowered/raised; size = sampling stride (1 = complete); non-trivial as for C08/pairs"
+	vfEnum("C08/edit-product", rule, 6, 1, 8, c08EnumEdits, c08Check)
+	vfEnum("C07/power-level-edit-product", rule+" (judged against R-auth in both directions)", 6, 1, 8, c08EnumEdits, c07Check)
+}
